@@ -36,7 +36,7 @@ From Knut Require Import Model.Str Model.Dec Model.Date Model.Account Model.Ledg
      Model.Table Model.Report Model.JPrinter Model.ImpCommonA
      Model.Imp.Swisscard2 Model.Imp.Viac Model.Imp.Cumulus Model.Imp.Postfinance Model.Imp.Swisscard
      Model.Imp.Supercard
-     Spec.ImpSpecA Proofs.DecValue Proofs.PairProofs Proofs.ImpProofsA.
+     Spec.ImpSpecA Proofs.DecValue Proofs.PairProofs Proofs.ImpProofsA Proofs.ImpRunB.
 Import ListNotations.
 
 (* ---------------------------------------------------------------- sign conventions *)
@@ -183,6 +183,15 @@ Theorem C13_viac_end_to_end : forall flag l,
   run_viac flag None (VValues l) = mkRun (print_directives (map (price_of flag s_CHF) (viac_prices 0 l))) SOk.
 Proof. exact viac_run. Qed.
 Print Assumptions C13_viac_end_to_end.
+
+(* with --from: the prices of the entries not before that day (None: all entries from day 0 on) *)
+Theorem C13_viac_end_to_end_from : forall flag from l fr,
+  valid_name flag = true ->
+  match from with None => Some 0%Z | Some f => parse_iso f end = Some fr ->
+  forallb viac_wf_entry l = true ->
+  run_viac flag from (VValues l) = mkRun (print_directives (map (price_of flag s_CHF) (viac_prices fr l))) SOk.
+Proof. exact viac_run_from. Qed.
+Print Assumptions C13_viac_end_to_end_from.
 
 Theorem C13_cumulus_end_to_end : forall flag acct entries,
   account_flag flag = AAcc acct -> acct <> tbd_account -> forallb cum_wf_entry entries = true ->
